@@ -64,7 +64,7 @@ def drive(ctx, env, tag):
 
 def run(ctx, prop, n=None):
     mode = "eos" if prop == "C10" else "txn"
-    n = n or ((400 if mode == "txn" else 60) if ctx.tier == "quick" else (4000 if mode == "txn" else 600))
+    n = n or ((400 if mode == "txn" else 100) if ctx.tier == "quick" else (4000 if mode == "txn" else 600))
     out = os.path.join(ctx.work, "txn_trace_raw.ndjson")
     if os.path.exists(out):
         os.remove(out)
